@@ -212,6 +212,12 @@ def run_tlc(ctx, name, spec, env_override=None, allow_spec_violation=False):
             log("WARNING: TLC job %s: actions never taken: %s" % (name, untaken))
     with open(os.path.join(meta, "out.txt"), "w") as f:
         f.write(out)
+    if spec.get("expect_violation_re"):
+        if p.returncode != 0 and re.search(spec["expect_violation_re"], out):
+            return {"job": name, "verdict": "ok", "exit": p.returncode, "records": [], "stats": st,
+                    "notes": [{"expected_violation_found": spec["expect_violation_re"]}], "wall_s": round(wall, 2),
+                    "module": spec["module"]}
+        raise ToolError("TLC job %s: expected a violation matching %s, found none" % (name, spec["expect_violation_re"]))
     if spec.get("expect_violation"):
         # a configuration that documents a hazard: TLC must find the named invariant violated
         if ("Invariant %s is violated" % spec["expect_violation"]) in out:
@@ -597,6 +603,11 @@ JOBS = {
     "proof_keyboard": dict(kind="tlapm", files=["KeyboardProofs.tla", "Keyboard.tla"]),
     "conf_xlate": dict(kind="tlc", module="Conf_Xlate", cfg="Conf_Xlate.cfg", workers=4,
                        env={"GRAPH1": "art:g_set1", "GRAPH2": "art:g_set2"}),
+    # negative controls on the specification side (selftest): a deliberately broken stage must be rejected
+    "neg_mc_event": dict(kind="tlc", module="MC_Event", cfg="MC_Event_neg.cfg", workers=8, cont=False, coverage=False,
+                         expect_violation="C04_ModsAreHistory"),
+    "neg_mc_set2": dict(kind="tlc", module="MC_Set2", cfg="MC_Set2_neg.cfg", cont=False, coverage=False,
+                        expect_violation_re=r"Assumption .* is false|Resync is violated"),
     "props_scan": dict(kind="tlc", module="Props_Scan", cfg="Props_Scan.cfg", workers=1,
                        env={"GRAPH1": "art:g_set1", "GRAPH2": "art:g_set2"}),
 }
